@@ -50,6 +50,10 @@ class Gen(Generic[T]):
     pass
 
 
+class _Unrelated:
+    """Put into a caller-owned `types` list after a registration (the list is reused)."""
+
+
 TYPES: list[Any] = [A, B, C, Dd, Gen[int]]
 TNAMES = ["A", "B", "C", "D", "G[int]"]
 VCLS = [A, B, C, Dd]
@@ -400,6 +404,8 @@ class _Gen:
             op["name"] = d.pick(INVALID_NAMES)
         op["async"] = d.pct(45)
         op["cps"] = d.int(0, 2) if op["async"] else 0
+        if op["mode"] == "arg" and d.pct(30):
+            op["shape"] = d.pick(["lambda", "partial", "object"])
         if d.pct(14 if self.prop == "C04" else 6):
             op["fail_first"] = True  # the first call for every context raises (after its checkpoints)
         if d.pct(25):
@@ -663,6 +669,27 @@ class Interp:
                     raise FactoryErr(f"f{fid} call {n} for context #{ctx}")
                 return produce(info, ctx, n)
 
+        shape = op.get("shape")
+        if shape and op["mode"] == "arg":
+            inner = cb
+            if shape == "lambda":
+                cb = lambda: inner()  # noqa: E731  (an async factory that is not an `async def`)
+            elif shape == "partial":
+                import functools
+
+                cb = functools.partial(inner)
+            elif shape == "object":
+                if op["async"]:
+                    class _AsyncFactory:
+                        async def __call__(self) -> Any:
+                            return await inner()
+                    cb = _AsyncFactory()
+                else:
+                    class _Factory:
+                        def __call__(self) -> Any:
+                            return inner()
+                    cb = _Factory()
+            return cb
         mode = op["mode"]
         tt = [TYPES[t] for t in types]
         if mode == "annot_single":
@@ -769,7 +796,15 @@ class Interp:
             raise HarnessError(f"implicit parent {parent} is not the task's top {task.top()}")
         idx = self.m.new(parent, op["idx"])
         try:
-            rc = Context(self.real[parent]) if op["explicit"] else Context()
+            if op["explicit"] and self.case["comp"] and parent == 0 and task.top() == 0 and op["idx"] % 2:
+                # inside component code the current context is the component's own one; passing it
+                # explicitly must behave like passing the context it delegates to
+                from asphalt.core import current_context
+
+                self.labels.add("explicit-component-context-parent")
+                rc = Context(current_context())
+            else:
+                rc = Context(self.real[parent]) if op["explicit"] else Context()
         except Exception as exc:
             self.disc(["crash"], "Context()-raises", f"Context() raised {short_exc(exc)}")
             self.diverged = True
@@ -922,6 +957,7 @@ class Interp:
             types = TYPES[op["types"][0]]  # a bare type instead of a sequence
         else:
             types = [TYPES[t] for t in op["types"]]
+        scratch_list = types if isinstance(types, list) else None
         td = op.get("teardown")
         kwargs: dict[str, Any] = {}
         if td == "ok":
@@ -946,6 +982,12 @@ class Interp:
             raise
         except Exception as e:
             exc = e
+        if scratch_list is not None and self.prop != "C03":
+            # callers reuse their scratch lists: what was registered must not change with them
+            # (under C03 only factory registrations do this, so that the history gets as far as the
+            # lookups whose stability C03 is about; the static route is C02's "lookup paths agree")
+            scratch_list.clear()
+            scratch_list.append(_Unrelated)
         desc = (f"add_resource(<{TNAMES[op['vcls']]} {serial}>, {op['name']!r}, types={[TNAMES[t] for t in op['types']]}"
                 f"{', ' + str(op.get('bad_types')) if op.get('bad_types') else ''}"
                 f"{', teardown=' + str(td) if td else ''}) on #{ctx}")
@@ -1010,6 +1052,9 @@ class Interp:
             raise
         except Exception as e:
             exc = e
+        if isinstance(kwargs.get("types"), list):
+            kwargs["types"].clear()
+            kwargs["types"].append(_Unrelated)
         desc = (f"add_resource_factory(f{op['fid']}{' async' if op['async'] else ''}, {op['name']!r}, "
                 f"types={[TNAMES[t] for t in op['types']]} via {op['mode']}) on #{ctx}")
         self.trace.append([desc, "raised " + type(exc).__name__ if exc else "ok"])
@@ -1147,7 +1192,8 @@ class Interp:
             # (zero productions are fine when the pair was taken by another resource meanwhile)
             if n_p > 1 or (n_p == 0 and c.res.get((tid, name)) is None and exc is None):
                 racing = "racing lookups from concurrent tasks" if n_p > 1 else "no call"
-                self.disc(["generation"], "factory-called-%s" % ("twice-race" if n_p > 1 else "never"),
+                # (two products for one context also means that a pair does not keep its object)
+                self.disc(["generation", "identity"] if n_p > 1 else ["generation"], "factory-called-%s" % ("twice-race" if n_p > 1 else "never"),
                           f"{desc}: factory f{fid} produced {n_p} objects ({self.fcalls.get((ctx, fid), 0)} calls) for context #{ctx} ({racing})")
                 self.diverged = True
                 return
@@ -1210,6 +1256,18 @@ class Interp:
                 return
             if api not in LIST_APIS:
                 self.returned.setdefault(key3, got_s)
+            if exp[0] == "gen" and result is not None:
+                # stability probe: the pair that was just resolved must resolve to the same object again
+                try:
+                    again = rc.get_resource_nowait(T_, name, optional=True)
+                except Exception as e2:
+                    again = e2
+                if again is not result:
+                    self.disc(["identity", "generation"], "pair-changed-object",
+                              f"{desc} returned {got_s}; looking the same pair up again right away gives "
+                              f"{self.ser(again) if not isinstance(again, Exception) else short_exc(again)}")
+                    self.diverged = True
+                    return
         self.check_views("get", ctx, exc is not None, desc + (f" [raised {type(exc).__name__}]" if exc else ""))
 
     async def do_par(self, task: _Task, op: dict) -> None:
